@@ -230,6 +230,13 @@ class SchedExecutor:
                     break
             if rec.task_order == 'lifo':
                 items.reverse()
+            elif rec.task_order == 'by-window':
+                # blocks that cover the same window in different bands next to each other (submission order has all of band 1 first): they are
+                # then in flight together, which is when state keyed by the window rather than by the block is shared
+                def wkey(it):
+                    bp = next((a for a in it[3] if hasattr(a, 'band_i') and hasattr(a, 'src_out_block')), None)
+                    return (0, 0, it[0]) if bp is None else (int(bp.src_out_block.row_off), int(bp.src_out_block.col_off), int(bp.band_i))
+                items.sort(key=wkey)
             else:
                 rec.order_rng.shuffle(items)
             for it in items:
@@ -326,6 +333,26 @@ def interposed(rec):
         p = DatasetProxy(ds, role, rec)
         rec.datasets.append((role, mode, ds))
         return p
+    # the model object is shared by every block in flight: entering and leaving its fit / apply are switch points too, so that anything
+    # it keeps between the two calls of one block is exposed to the calls of another
+    import homonim.kernel_model as hkm
+    saved_methods = []
+    for cls_ in (hkm.KernelModel, hkm.RefSpaceModel, hkm.SrcSpaceModel):
+        for name_ in ('fit', 'apply'):
+            if name_ in cls_.__dict__ and callable(cls_.__dict__[name_]):
+                orig_ = cls_.__dict__[name_]
+
+                def make(orig):
+                    def wrapped(self, *a, **k):
+                        rec.yield_point()
+                        try:
+                            return orig(self, *a, **k)
+                        finally:
+                            rec.yield_point()
+                    wrapped.__wrapped__ = orig
+                    return wrapped
+                setattr(cls_, name_, make(orig_))
+                saved_methods.append((cls_, name_, orig_))
     SchedExecutor.rec = rec
     rasterio.open = open_proxy
     cf.ThreadPoolExecutor = SchedExecutor
@@ -338,6 +365,8 @@ def interposed(rec):
         cf.as_completed = _real_as_completed
         for m, t in saved.items():
             m.threading = t
+        for cls_, name_, orig_ in saved_methods:
+            setattr(cls_, name_, orig_)
         SchedExecutor.rec = None
 
 
